@@ -1,186 +1,487 @@
-"""C28 — Embedded queries return faithful answers across a query history."""
+"""C28 — Embedded queries return faithful answers across a query history.
+
+Histories of queries on ONE Machine (each consumed to a prefix of k items, then the iterator is dropped)
+are compared with
+  O1  the same query on a FRESH Machine holding the same database (the property's own oracle),
+  O2  findall/3 inside Prolog on a fresh Machine with the same database (bindings),
+  O3  the protocol model (Model/Embed.lean, `runHistory Cfg.repaired`), which Props/C28.lean proves equal
+      to the specification `specHistory` for every history.
+Queries: (a) a vocabulary of database-independent queries whose stand-alone stream is taken from a fresh
+Machine, (b) templates over a dynamic predicate f/1 (assertz/asserta/retract/retractall, enumeration with
+side effects, throwing after side effects) whose or-tree the model computes from the database.
+"""
 import re
 from .. import core, diff
 
 LEVEL = "proof"
 TRUSTED_BASE = [
-    "Model/Embed.lean abstracts the WAM search of one query to its event script (answers with/without a choice point left, uncaught ball) and mirrors run_query / QueryState::next / Drop around it",
-    "each query's script is derived from its own full run on a FRESH machine (the property's oracle: 'behaves as on a fresh Machine'); queries are side-effect free",
-    "oracle 2: bindings are compared with findall/3 run inside Prolog on a fresh machine",
+    "Model/Embed.lean abstracts the WAM search of one query to an or-tree (fail / answer / uncaught throw / push choice point / database update) and mirrors run_query / QueryState::next / Drop and the shared choice-point stack, ball and database around it; heap, trail, registers are not modelled",
+    "Tpl.sem (Model/Embed.lean) + render() (vlib/props/C28.py): or-trees of the f/1 query templates, incl. which answers leave a choice point (last clause / last list element is deterministic); validated per (query, database) against a fresh Machine in every run",
+    "database-independent queries: their or-tree is a try-chain reconstructed from their stream on a fresh Machine",
+    "the database after a PARTIALLY consumed query is predicted by the model (observed through later snapshot queries in the same history)",
+    "sv-harness `Q` line: max_answers=k asks for at most k items then drops the iterator; k=0 drops it unasked",
 ]
-ASSUMPTIONS = ["queries in the vocabulary have no side effects on the database, flags or streams"]
+ASSUMPTIONS = [
+    "database-independent vocabulary queries have no side effects on the database, flags or streams",
+    "a fresh Machine plus consult_module_string of `:- dynamic(f/1).` and facts is 'a fresh Machine given the same database'",
+]
 
-# (query text, variables for the findall cross-check or None when it can throw)
-QUERIES = [
-    ("X = 1.", "X"), ("X is 2+3.", "X"), ("true.", None), ("atom_length(abc, N).", "N"),
-    ("X = f(Y, \"str\", [1,2|T]).", "X-Y-T"),
+# ---------------------------------------------------------------- vocabulary (database independent)
+# (query text, findall template variables or None)
+PURE = [
+    ("X = 1.", "X"), ("X is 2+3.", "X"), ("true.", ""), ("atom_length(abc, N).", "N"),
+    ("X = f(Y, \"str\", [1,2|T]).", "X,Y,T"),
     ("member(X, [a,b,c]).", "X"), ("(X = 1 ; X = 2).", "X"), ("between(1, 3, X).", "X"),
-    ("(X = 1 ; X = 2), (Y = a ; Y = b).", "X-Y"), ("append(X, Y, [1,2]).", "X-Y"),
-    ("member(X, [1,2,3]), X > 1.", "X"), ("member(X, [1,2,3]), X < 3.", "X"), ("length(L, N), N >= 2, !.", "L-N"),
-    ("fail.", None), ("1 = 2.", None), ("member(x, [a]).", None), ("\\+ true.", None),
-    ("throw(e).", None), ("throw(f(X, 1)).", None), ("X is foo + 1.", None), ("atom_length(X, Y).", None),
-    ("(X = 1 ; throw(oops)).", None), ("(X = 1 ; X = 2 ; throw(late)).", None), ("member(X, [1,2]), X > 1, throw(found(X)).", None),
-    ("catch(throw(a), _, true).", None), ("catch(member(X,[1,2]), _, true).", "X"),
-    ("dif(X, a).", None), ("X = \"abc\", atom_chars(A, X).", "X-A"), ("X is 2 ** 100.", "X"),
-    ("findall(Y, member(Y,[1,2,3]), L).", "L"), ("select(X, [1,2,3], R).", "X-R"), ("nth0(I, [a,b], E).", "I-E"),
-    ("atom(a), !.", None), ("(member(X,[1,2,3]), X >= 2 -> true ; X = none).", "X"),
-    ("call_with_inference_limit(member(X,[1,2]), 1000, R).", "X-R"),
-    ("setof(X, member(X,[c,a,b]), L).", "L"), ("bagof(X-Y, member(X-Y,[1-a,2-b]), L).", "L"),
-    ("sort([c,a,b,a], L).", "L"), ("number_chars(N, \"42\").", "N"), ("sub_atom(abc, B, 1, A, S).", "B-A-S"),
+    ("(X = 1 ; X = 2), (Y = a ; Y = b).", "X,Y"), ("append(X, Y, [1,2]).", "X,Y"),
+    ("member(X, [1,2,3]), X > 1.", "X"), ("member(X, [1,2,3]), X < 3.", "X"), ("length(L, N), N >= 2, !.", "L,N"),
+    ("fail.", ""), ("1 = 2.", ""), ("member(x, [a]).", ""), ("\\+ true.", ""),
+    ("throw(e).", ""), ("throw(f(X, 1)).", None), ("X is foo + 1.", "X"), ("atom_length(X, Y).", "X,Y"),
+    ("(X = 1 ; throw(oops)).", "X"), ("(X = 1 ; X = 2 ; throw(late)).", "X"), ("member(X, [1,2]), X > 1, throw(found(X)).", "X"),
+    ("catch(throw(a), _, true).", None), ("catch(member(X,[1,2]), _, true).", None),
+    ("dif(X, a).", None), ("X = \"abc\", atom_chars(A, X).", "X,A"), ("X is 2 ** 100.", "X"),
+    ("findall(Y, member(Y,[1,2,3]), L).", "L"), ("select(X, [1,2,3], R).", "X,R"), ("nth0(I, [a,b], E).", "I,E"),
+    ("atom(a), !.", ""), ("(member(X,[1,2,3]), X >= 2 -> true ; X = none).", "X"),
+    ("call_with_inference_limit(member(X,[1,2]), 1000, R).", "X,R"),
+    ("setof(X, member(X,[c,a,b]), L).", "X,L"), ("bagof(X-Y, member(X-Y,[1-a,2-b]), L).", "L"),
+    ("sort([c,a,b,a], L).", "L"), ("number_chars(N, \"42\").", "N"), ("sub_atom(abc, B, 1, A, S).", "B,A,S"),
+    ("member(X, [1,2,3]), member(Y, [a,b]), X >= 2.", "X,Y"), ("between(1, 4, X), X mod 2 =:= 0.", "X"),
+    ("catch((member(X,[1,2,3]), X >= 2, throw(t(X))), t(Y), true).", "X,Y"),
 ]
 PRE = ["use_module(library(lists)).", "use_module(library(between)).", "use_module(library(dif)).", "use_module(library(iso_ext))."]
+FULL = 60   # "ask until None" (no stream in the check has more items)
+
+
+def ilist(xs):
+    return "[" + ",".join(str(x) for x in xs) + "]"
+
+
+def render(q):
+    """query (JSON-able list) -> Prolog text. MUST match Tpl.sem in Model/Embed.lean."""
+    t = q[0]
+    if t == "pure":
+        return PURE[q[1]][0]
+    a = q[1:]
+    return {
+        "enum": lambda: "f(X).",
+        "addz": lambda: "assertz(f(%d))." % a[0],
+        "adda": lambda: "asserta(f(%d))." % a[0],
+        "retr": lambda: "retract(f(X)).",
+        "retrGt": lambda: "retract(f(X)), X > %d." % a[0],
+        "enumAdd": lambda: "f(X), Y is X+%d, assertz(f(Y))." % a[0],
+        "enumAddLt": lambda: "f(X), Y is X+%d, assertz(f(Y)), X < %d." % (a[0], a[1]),
+        "enumThrow": lambda: "f(X), ( X >= %d -> throw(hit(X)) ; true )." % a[0],
+        "addThrow": lambda: "assertz(f(%d)), throw(oops(%d))." % (a[0], a[0]),
+        "enumOrThrow": lambda: "( f(X) ; throw(late) ).",
+        "membAdd": lambda: "member(X, %s), assertz(f(X))." % ilist(a[0]),
+        "pairs": lambda: "member(X, %s), member(Y, %s)." % (ilist(a[0]), ilist(a[1])),
+        "pairsAdd": lambda: "member(X, %s), member(Y, %s), Z is X*10+Y, assertz(f(Z))." % (ilist(a[0]), ilist(a[1])),
+        "snap": lambda: "findall(X, f(X), L).",
+        "clear": lambda: "retractall(f(_)).",
+        "has": lambda: "( f(%d) -> R = yes ; R = no )." % a[0],
+        "retrThrow": lambda: "retract(f(X)), X >= %d, throw(got(X))." % a[0],
+    }[t]()
+
+
+TVARS = {"enum": "X", "addz": "", "adda": "", "retr": "X", "retrGt": "X", "enumAdd": "X,Y", "enumAddLt": "X,Y",
+         "enumThrow": "X", "addThrow": "", "enumOrThrow": "X", "membAdd": "X", "pairs": "X,Y", "pairsAdd": "X,Y,Z",
+         "snap": "L", "clear": "", "has": "R", "retrThrow": ""}
+
+
+def qvars(q):
+    return PURE[q[1]][1] if q[0] == "pure" else TVARS[q[0]]
+
+
+def csv(xs):
+    return ",".join(str(x) for x in xs) if xs else "-"
+
+
+def qkey(q):
+    return repr(q)
+
+
+class Voc:
+    """stand-alone streams of the database-independent vocabulary (from fresh Machines) as model scripts."""
+
+    def __init__(self):
+        cases = []
+        for qi, (q, _vs) in enumerate(PURE):
+            cases.append(["R\tb_r%d" % qi] + ["Q\tb_p%d_%d\t1\t%s" % (qi, j, p) for j, p in enumerate(PRE)]
+                         + ["Q\tb_q%d\t%d\t%s" % (qi, FULL, q)])
+        res = core.run_impl_parallel(cases)
+        for qi in range(len(PURE)):      # retry under load
+            if res.get("b_q%d" % qi, "timeout") == "timeout":
+                res.update(core.run_impl(cases[qi]))
+        self.stream = {qi: items_of(res.get("b_q%d" % qi, "missing")) for qi in range(len(PURE))}
+        self.tok = {}
+        self.enc = {}
+        for qi, items in self.stream.items():
+            answers, end = [], "det"
+            for it in items:
+                if it == "false":
+                    end = "fails"
+                    break
+                if it.startswith("exception(") or it.startswith("error("):
+                    self.tok[(qi, it)] = "q%de" % qi
+                    end = "throws=q%de" % qi
+                    break
+                if (qi, it) not in self.tok:
+                    self.tok[(qi, it)] = "q%dn%d" % (qi, len(answers))
+                answers.append(self.tok[(qi, it)])
+            if not answers and end == "det":
+                end = "fails"
+            self.enc[qi] = " ".join(["pure", end] + answers)
+
+    def tokens(self, qi, items):
+        return [it if it == "false" else self.tok.get((qi, it), it) for it in items]
 
 
 def items_of(result):
-    """harness result text -> list of items (answers as text, 'F' for false, 'E…' for exception)"""
-    out = []
-    for a in result.split(" ;; "):
-        if a == "...":
-            continue
-        if a == "false":
-            out.append("F")
-        elif a.startswith("exception(") or a.startswith("error("):
-            out.append("E" + a)
+    return [a for a in result.split(" ;; ") if a != "..."] if result else []
+
+
+def enc(q, voc):
+    if q[0] == "pure":
+        return voc.enc[q[1]]
+    return " ".join([q[0]] + [csv(x) if isinstance(x, list) else str(x) for x in q[1:]])
+
+
+def hist_enc(hist, voc):
+    return "|".join("%d:%s" % (k, enc(q, voc)) for q, k in hist)
+
+
+def setup_lines(cid, db):
+    prog = ":- dynamic(f/1).\\n" + "".join("f(%d).\\n" % v for v in db)
+    return ["R\t%s_r" % cid] + ["Q\t%s_p%d\t1\t%s" % (cid, j, p) for j, p in enumerate(PRE)] + ["L\t%s_l\tuser\t%s" % (cid, prog)]
+
+
+# ---------------------------------------------------------------- generator
+def gen_query(rng):
+    r = rng.random()
+    if r < 0.30:
+        return ["pure", rng.randrange(len(PURE))]
+    n = lambda: rng.choice([0, 1, 2, 3, 4, 5, 7, 9, -1])
+    small = lambda: [rng.randint(0, 9) for _ in range(rng.choice([0, 1, 2, 2, 3]))]
+    t = rng.choice(["enum", "enum", "addz", "adda", "retr", "retr", "retrGt", "enumAdd", "enumAdd", "enumAddLt", "enumThrow",
+                    "addThrow", "enumOrThrow", "membAdd", "pairs", "pairs", "pairsAdd", "snap", "clear", "has", "retrThrow"])
+    if t in ("enum", "retr", "enumOrThrow", "snap", "clear"):
+        return [t]
+    if t in ("addz", "adda", "retrGt", "enumThrow", "addThrow", "has", "retrThrow"):
+        return [t, n()]
+    if t == "enumAdd":
+        return [t, rng.choice([1, 10, 10, 20])]
+    if t == "enumAddLt":
+        return [t, rng.choice([1, 10]), n()]
+    if t == "membAdd":
+        return [t, small()]
+    return [t, small(), small()]      # pairs, pairsAdd
+
+
+def gen_history(rng, voc):
+    db0 = [rng.randint(0, 9) for _ in range(rng.choice([0, 1, 2, 3, 3, 4]))]
+    hist = []
+    for _ in range(rng.randint(2, 8)):
+        q = gen_query(rng)
+        if q[0] == "pure":
+            full = len(voc.stream[q[1]])
+            k = rng.choice([0, 1, 1, 2, full, full + 1, rng.randint(0, full + 1)])
         else:
-            out.append("A" + a)
+            k = rng.choice([0, 1, 1, 2, 2, 3, 4, FULL, FULL, rng.randint(0, 6)])
+        hist.append([q, k])
+        if rng.random() < 0.25:
+            hist.append([["snap"], FULL])
+    hist.append([["snap"], FULL])
+    return db0, hist
+
+
+# regression histories for the two repaired defects and the boundaries the proofs single out
+FIXED = [
+    ([1, 2], [[["pure", 17], 1], [["pure", 0], 1], [["snap"], FULL]]),                       # throw, then a plain query (stale ball)
+    ([1, 2], [[["addThrow", 5], FULL], [["enum"], FULL], [["enumThrow", 2], FULL], [["addz", 3], 1], [["snap"], FULL]]),
+    ([1, 2, 3], [[["pairs", [1, 2], [3, 4]], 1], [["pure", 0], 1], [["enum"], FULL], [["snap"], FULL]]),  # two choice points left at drop
+    ([1, 2, 3], [[["enum"], 1], [["retr"], 2], [["enumAdd", 10], 1], [["enum"], 0], [["addz", 8], 0], [["snap"], FULL]]),
+    ([3, 1], [[["enumAddLt", 10, 2], 1], [["snap"], FULL], [["enumAddLt", 10, 2], 2], [["snap"], FULL], [["enumAddLt", 10, 2], FULL], [["snap"], FULL]]),
+    ([], [[["enum"], FULL], [["retr"], 1], [["enumOrThrow"], FULL], [["pure", 13], 1], [["pure", 13], 2], [["snap"], FULL]]),
+]
+
+
+# ---------------------------------------------------------------- findall oracle helpers
+def strip_quoted(s):
+    return re.sub(r"'(?:[^'\\]|\\.)*'|\"(?:[^\"\\]|\\.)*\"", "q", s)
+
+
+def split_top(s):
+    out, depth, cur, inq = [], 0, "", None
+    i = 0
+    while i < len(s):
+        c = s[i]
+        if inq:
+            cur += c
+            if c == "\\" and i + 1 < len(s):
+                cur += s[i + 1]
+                i += 1
+            elif c == inq:
+                inq = None
+        elif c in "'\"":
+            inq = c
+            cur += c
+        elif c in "([{":
+            depth += 1
+            cur += c
+        elif c in ")]}":
+            depth -= 1
+            cur += c
+        elif c == "," and depth == 0:
+            out.append(cur)
+            cur = ""
+        else:
+            cur += c
+        i += 1
+    if cur:
+        out.append(cur)
     return out
 
 
-def script_of(items):
-    """inverse of Model.Embed.stream: event script of a query from its complete stream."""
-    evs = []
-    for i, it in enumerate(items):
-        last = i == len(items) - 1
-        if it == "F":
-            break
-        if it.startswith("E"):
-            evs.append(("e", it))
-            break
-        evs.append(("a", "0" if last else "1", it))
-    return evs
+def findall_expect(vs, answers):
+    """the text of `L` in findall(v(Vs…), Q, L) that the answers of run_query imply, or None when an answer
+    leaves a variable unbound / contains variables (then only the number of answers is compared)."""
+    names = [v for v in vs.split(",") if v]
+    els = []
+    for a in answers:
+        if a == "true" or a == "{}":
+            b = {}
+        elif a.startswith("{") and a.endswith("}"):
+            b = {}
+            for part in split_top(a[1:-1]):
+                n, _, v = part.partition("=")
+                b[n] = v
+        else:
+            return None
+        if set(b) != set(names):
+            return None
+        if any(re.search(r"(?<![\w])[A-Z_]\w*", strip_quoted(v)) for v in b.values()):
+            return None
+        els.append("'vv'(%s)" % ",".join(b[n] for n in names) if names else "'vv'")
+    return "[" + ",".join(els) + "]"
 
 
+# ---------------------------------------------------------------- run
 def run(ctx):
     rng, tier = ctx["rng"], ctx["tier"]
     rep = diff.replay_case(ctx)
-    # phase 1: every query on a fresh machine, completely (its stand-alone stream), plus findall cross-check
-    base_lines = ["R\tb_reset"] + ["Q\tb_pre%d\t1\t%s" % (j, p) for j, p in enumerate(PRE)]
-    for qi, (q, vs) in enumerate(QUERIES):
-        base_lines.append("R\tb_r%d" % qi)
-        base_lines += ["Q\tb_p%d_%d\t1\t%s" % (qi, j, p) for j, p in enumerate(PRE)]
-        base_lines.append("Q\tb_q%d\t40\t%s" % (qi, q))
-        if vs:
-            base_lines.append("Q\tb_f%d\t2\tfindall(%s, (%s), All), length(All, Len)." % (qi, vs, q[:-1]))
-    base = core.run_impl(base_lines)
-    streams, scripts, names = {}, {}, {}
+    voc = Voc()
     findings = []
-    for qi, (q, vs) in enumerate(QUERIES):
-        items = items_of(base.get("b_q%d" % qi, "missing"))
-        streams[qi] = items
-        scripts[qi] = script_of(items)
-    # symbolic names for answers so that the model sees short tokens
-    def tok(qi, it):
-        key = (qi, it)
-        if key not in names:
-            names[key] = "q%dn%d" % (qi, len([k for k in names if k[0] == qi]))
-        return names[key]
 
-    def enc(qi):
-        ev = []
-        for e in scripts[qi]:
-            if e[0] == "e":
-                ev.append("e" + tok(qi, e[1]))
-            else:
-                ev.append("a" + e[1] + tok(qi, e[2]))
-        return " ".join(ev)
-
-    # phase 2: histories on ONE machine with random consumed prefixes
+    # ---- histories
+    hs = []
     if rep is not None:
-        cases = rep
+        for c in rep:
+            hs.append((c["db0"], c["hist"]))
     else:
-        cases = diff.load_corpus("C28")
-        n = 150 if tier == "quick" else 2500
-        k0 = len(cases)
-        for ci in range(n):
-            hl = rng.randint(2, 7)
-            hist = []
-            for _ in range(hl):
-                qi = rng.randrange(len(QUERIES))
-                full = len(streams[qi])
-                k = rng.choice([0, 1, 1, 2, full, full + 1, rng.randint(0, full + 1)])
-                hist.append((qi, k))
-            cid = "h%d" % (k0 + ci)
-            impl = ["R\t%s_r" % cid] + ["Q\t%s_p%d\t1\t%s" % (cid, j, p) for j, p in enumerate(PRE)]
-            for j, (qi, k) in enumerate(hist):
-                impl.append("Q\t%s_%d\t%d\t%s" % (cid, j, k, QUERIES[qi][0]))
-            henc = "|".join("%d:%s" % (k, enc(qi)) for qi, k in hist)
-            cases.append({"id": cid, "hist": hist, "impl": impl,
-                          "model": ["hist\t%s_m\t1\t%s" % (cid, henc), "spec\t%s_s\t%s" % (cid, henc),
-                                    "hist\t%s_old\t0\t%s" % (cid, henc)]})
-    impl, model = diff.run_cases(cases)
-    agree, total = 0, 0
-    distinct = set()
-    stale_sensitive = 0
+        for c in diff.load_corpus("C28"):
+            if "hist" in c and "db0" in c:
+                hs.append((c["db0"], c["hist"]))
+        hs += [(d, h) for d, h in FIXED]
+        n = 70 if tier == "quick" else 1200
+        for _ in range(n):
+            hs.append(gen_history(rng, voc))
+
+    # ---- model pass: specification (gives the database before every query), repaired model, pre-repair models
+    mlines = []
+    for i, (db0, hist) in enumerate(hs):
+        he = hist_enc(hist, voc)
+        mlines += ["spec\th%d_s\t%s\t%s" % (i, csv(db0), he), "hist\th%d_m\t1\t1\t%s\t%s" % (i, csv(db0), he),
+                   "hist\th%d_nb\t0\t1\t%s\t%s" % (i, csv(db0), he), "hist\th%d_nd\t1\t0\t%s\t%s" % (i, csv(db0), he)]
+    model = core.run_model(mlines)
+
+    spec_items, db_before = {}, {}
+    for i, (db0, hist) in enumerate(hs):
+        s = model.get("h%d_s" % i, "bad-op")
+        if s == "bad-op":
+            raise RuntimeError("model driver rejected history %r" % (hist,))
+        body = s.rsplit(" # ", 1)[0]
+        cur = list(db0)
+        for j, part in enumerate(body.split(" | ")):
+            its, _, dbt = part.rpartition(" @ ")
+            spec_items[(i, j)] = [x for x in its.split(" ;; ") if x != ""]
+            db_before[(i, j)] = cur
+            cur = [int(x) for x in dbt.strip()[1:-1].split(",") if x != ""]
+
+    # ---- isolated runs on fresh machines for every distinct (template query, database): O1 + O2
+    iso = {}
+    for i, (db0, hist) in enumerate(hs):
+        for j, (q, k) in enumerate(hist):
+            if q[0] != "pure":
+                iso.setdefault((qkey(q), tuple(db_before[(i, j)])), q)
+    iso_keys = sorted(iso, key=repr)
+    # O2 on a sample of the pairs (each needs one more fresh machine)
+    fa_max = 60 if tier == "quick" else 1500
+    fa_keys = set(iso_keys) if len(iso_keys) <= fa_max or rep is not None else set(rng.sample(iso_keys, fa_max))
+    cases, iso_model = [], []
+    for n_, key in enumerate(iso_keys):
+        q, db = iso[key], list(key[1])
+        cid = "i%d" % n_
+        text = render(q)
+        vs = qvars(q)
+        tmpl = "vv(%s)" % vs if vs else "vv"
+        cases.append({"id": cid, "impl": setup_lines(cid, db) + ["Q\t%s_q\t%d\t%s" % (cid, FULL, text), "Q\t%s_d\t2\tfindall(X, f(X), L)." % cid]})
+        if key in fa_keys:
+            cases.append({"id": cid + "f", "impl": setup_lines(cid + "f", db) + ["Q\t%s_f\t3\tfindall(%s, (%s), L)." % (cid, tmpl, text[:-1])]})
+        iso_model.append("spec\t%s_s\t%s\t%d:%s" % (cid, csv(db), FULL, enc(q, voc)))
+    # the vocabulary's findall cross-check (database independent)
+    for qi, (text, vs) in enumerate(PURE):
+        if vs is None:
+            continue
+        tmpl = "vv(%s)" % vs if vs else "vv"
+        cases.append({"id": "pf%d" % qi, "impl": setup_lines("pf%d" % qi, []) + ["Q\tpf%d_f\t3\tfindall(%s, (%s), L)." % (qi, tmpl, text[:-1])]})
+    # ---- the histories themselves on ONE machine each
+    for i, (db0, hist) in enumerate(hs):
+        cid = "h%d" % i
+        cases.append({"id": cid, "impl": setup_lines(cid, db0) + ["Q\t%s_%d\t%d\t%s" % (cid, j, k, render(q)) for j, (q, k) in enumerate(hist)]})
+    impl, _ = diff.run_cases(cases)
+    retried = 0
     for c in cases:
-        cid = c["id"]
-        got = []
-        for j, (qi, k) in enumerate(c["hist"]):
-            items = items_of(impl.get("%s_%d" % (cid, j), "missing"))
-            got.append(" ".join((it[0] + tok(qi, it)) if it != "F" else "F" for it in items))
-        got_s = " | ".join(got)
-        m = model.get(cid + "_m", "missing")
-        sp = model.get(cid + "_s", "missing")
-        old = model.get(cid + "_old", "missing")
+        if any(impl.get(core.line_id(l)) == "timeout" for l in c["impl"]):
+            impl.update(core.run_impl(c["impl"]))
+            retried += 1
+    iso_spec = core.run_model(iso_model) if iso_model else {}
+
+    total = agree = 0
+    f_exact = f_count = 0
+    iso_stream = {}
+    iso_bad = set()
+
+    def check_findall(label, text, vs, stream, fres, case):
+        """O2: findall/3 inside Prolog against the run_query stream."""
+        nonlocal f_exact, f_count
+        answers = [s for s in stream if s != "false" and not s.startswith("exception(") and not s.startswith("error(")]
+        exc = [s for s in stream if s.startswith("exception(") or s.startswith("error(")]
+        fit = items_of(fres)
+        if exc:
+            ok = fit == exc
+            want = exc[0]
+        else:
+            exp = findall_expect(vs, answers)
+            if exp is not None:
+                ok = fit == ["{L=%s}" % exp]
+                want = "{L=%s}" % exp
+                f_exact += ok
+            else:
+                m = re.match(r"^\{L=(.*)\}$", fit[0]) if len(fit) == 1 else None
+                cnt = None
+                if m:
+                    inner = m.group(1)
+                    cnt = 0 if inner == "[]" else (len(split_top(inner[1:-1])) if inner.startswith("[") else None)
+                ok = cnt == len(answers)
+                want = "a list of %d solutions" % len(answers)
+                f_count += ok
+        if not ok:
+            findings.append(core.Finding("violation", {"family": "embed-findall", "query": text, "db": label, "run_query": " ;; ".join(stream)[:200],
+                                                       "findall": fres[:200]},
+                                         "run_query delivers other solutions/bindings than findall/3 collects inside Prolog (expected %s)" % want, case))
+        return ok
+
+    for n_, key in enumerate(iso_keys):
+        q, db = iso[key], list(key[1])
+        cid = "i%d" % n_
+        text = render(q)
+        stream = items_of(impl.get(cid + "_q", "missing"))
+        iso_stream[key] = stream
+        sp = iso_spec.get(cid + "_s", "missing").rsplit(" # ", 1)
+        sp_items = [x for x in sp[0].rpartition(" @ ")[0].split(" ;; ") if x != ""]
+        sp_db = "{L=%s}" % (sp[1] if len(sp) > 1 else "?")
+        case = {"db0": db, "hist": [[q, FULL], [["snap"], FULL]]}
         total += 1
-        if old != sp:
-            stale_sensitive += 1
-        if any(k not in (0,) for _, k in c["hist"]) and len(set(q for q, _ in c["hist"])) > 1:
-            distinct.add(tuple(tuple(x) for x in c["hist"]))
+        if stream != sp_items or items_of(impl.get(cid + "_d", "missing")) != [sp_db]:
+            iso_bad.add(key)
+            findings.append(core.Finding("disagreement", {"family": "embed-template", "query": text, "db": csv(db), "impl": " ;; ".join(stream)[:200],
+                                                          "model": " ;; ".join(sp_items)[:200], "impl_db": impl.get(cid + "_d", "missing")[:80], "model_db": sp_db[:80]},
+                                         "on a FRESH machine the query's stream / final database differs from the or-tree the model assigns to the template", case))
+            continue
+        if key not in fa_keys or check_findall(csv(db), text, qvars(q), stream, impl.get(cid + "_f", "missing"), case):
+            agree += 1
+    for qi, (text, vs) in enumerate(PURE):
+        if vs is None:
+            continue
+        total += 1
+        if check_findall("-", text, vs, voc.stream[qi], impl.get("pf%d_f" % qi, "missing"), {"db0": [], "hist": [[["pure", qi], FULL]]}):
+            agree += 1
+
+    distinct = set()
+    sens_ball = sens_drop = 0
+    kinds = {}
+    samples = []
+    for i, (db0, hist) in enumerate(hs):
+        cid = "h%d" % i
+        case = {"id": cid, "db0": db0, "hist": hist, "queries": [render(q) for q, _ in hist]}
+        total += 1
+        m_rep = model.get(cid + "_m", "missing")
+        sp_all = " | ".join(" ;; ".join(spec_items[(i, j)]) for j in range(len(hist)))
+        if m_rep.split(" # ")[0] != sp_all or not m_rep.endswith("depth=0 ball=0"):
+            findings.append(core.Finding("disagreement", {"family": "embed-model", "hist": hist_enc(hist, voc)[:300]},
+                                         "compiled model and specification differ (contradicts C28_history_faithful)", case))
+            continue
+        if model.get(cid + "_nb", "").split(" # ")[0] != sp_all:
+            sens_ball += 1
+        nd = model.get(cid + "_nd", "")
+        if nd.split(" # ")[0] != sp_all or not nd.endswith("depth=0 ball=0"):
+            sens_drop += 1
+        for q, k in hist:
+            kinds[q[0]] = kinds.get(q[0], 0) + 1
+        if len(set(qkey(q) for q, _ in hist)) > 2 and any(k not in (0, FULL) for _, k in hist):
+            distinct.add(repr(hist))
+        if len(samples) < 3 and i >= len(FIXED):
+            samples.append({"db0": db0, "history": [[render(q), k] for q, k in hist]})
+        bad = None
+        for j, (q, k) in enumerate(hist):
+            got = items_of(impl.get("%s_%d" % (cid, j), "missing"))
+            if q[0] == "pure":
+                got_c = voc.tokens(q[1], got)
+                fresh = voc.tokens(q[1], voc.stream[q[1]])[:k]
+            else:
+                got_c = got
+                key = (qkey(q), tuple(db_before[(i, j)]))
+                fresh = iso_stream.get(key, ["missing"])[:k]
+                if key in iso_bad:
+                    fresh = None      # the template model is off for this (query, db): already reported
+            want = spec_items[(i, j)]
+            if fresh is not None and got_c != fresh:
+                bad = (j, "fresh-machine", got, fresh)
+                break
+            if got_c != want:
+                bad = (j, "model", got, want)
+                break
         if rep is not None:
-            print("replay history=%s\n impl : %s\n model: %s\n spec : %s" % ([(QUERIES[q][0], k) for q, k in c["hist"]], got_s, m, sp))
-        cc = {"id": cid, "hist": c["hist"], "impl": c["impl"], "model": c["model"], "queries": [QUERIES[q][0] for q, _ in c["hist"]]}
-        if got_s == sp == m:
+            print("replay db0=%s history=%s\n impl : %s\n spec : %s" % (db0, [[render(q), k] for q, k in hist],
+                  " | ".join(impl.get("%s_%d" % (cid, j), "missing") for j in range(len(hist))), sp_all))
+        if bad is None:
             agree += 1
             continue
-        # find the first query of the history that deviates from its stand-alone prefix
-        exp = sp.split(" | ")
-        bad = next((j for j in range(len(got)) if j >= len(exp) or got[j] != exp[j]), 0)
-        prev = [QUERIES[q][0] + "@%d" % k for q, k in c["hist"][:bad]]
-        sig = {"family": "embed", "query": QUERIES[c["hist"][bad][0]][0], "consumed": str(c["hist"][bad][1]),
-               "after": " ".join(prev[-2:]), "impl": got[bad] if bad < len(got) else "", "fresh": exp[bad] if bad < len(exp) else "",
-               "impl_raw": impl.get("%s_%d" % (cid, bad), "missing")[:200]}
-        if got_s != sp:
-            findings.append(core.Finding("violation", sig, "a query in a history on one Machine does not deliver the prefix of the answers it gives on a fresh Machine", cc))
+        j, which, got, want = bad
+        q, k = hist[j]
+        prev = ["%s@%d" % (render(qq), kk) for qq, kk in hist[:j]]
+        sig = {"family": "embed", "oracle": which, "query": render(q), "consumed": str(k), "after": " ".join(prev[-2:])[:160],
+               "impl": " ;; ".join(got)[:160], "expected": " ;; ".join(want)[:160]}
+        if which == "fresh-machine":
+            findings.append(core.Finding("violation", sig, "a query in a history on one Machine does not deliver the prefix of the items it delivers on a fresh Machine with the same database", case))
+        elif q[0] == "snap":
+            findings.append(core.Finding("violation", sig, "the database after the preceding (partially consumed) queries is not the one the stand-alone course of those queries reaches after the same number of items", case))
         else:
-            findings.append(core.Finding("disagreement", sig, "the protocol model (Model/Embed.lean) differs from implementation and specification", cc))
-    # oracle 2: bindings equal to findall inside Prolog
-    f_ok = 0
-    for qi, (q, vs) in enumerate(QUERIES):
-        if not vs:
-            continue
-        fa = base.get("b_f%d" % qi, "missing")
-        n_ans = len([it for it in streams[qi] if it.startswith("A")])
-        m = re.search(r"Len=(\d+)\}$", fa)
-        if m is None:
-            findings.append(core.Finding("violation", {"family": "embed-findall", "query": q, "impl": fa},
-                                         "findall/3 cross-check did not return a list", {"query": q}))
-            continue
-        cnt = int(m.group(1))
-        total += 1
-        if cnt == n_ans:
-            f_ok += 1
-            agree += 1
-        else:
-            findings.append(core.Finding("violation", {"family": "embed-findall", "query": q, "answers": str(n_ans), "findall": str(cnt)},
-                                         "run_query delivers a different number of answers than findall/3 collects inside Prolog", {"query": q}))
+            findings.append(core.Finding("disagreement", sig, "the protocol model (Model/Embed.lean) differs from the implementation", case))
+
     return {
         "evaluations": total,
         "distinct_nontrivial": len(distinct),
-        "rule": "histories of 2-7 queries from a %d-query vocabulary (deterministic, nondeterministic, failing, throwing early/late, residual constraints) on one Machine, each consumed to a random prefix (0, 1, 2, all, all+1) and dropped; each query's stand-alone stream comes from a fresh Machine; non-trivial = at least two different queries and a non-empty prefix; distinct by (query, prefix) sequence" % len(QUERIES),
-        "samples": [[(QUERIES[q][0], k) for q, k in c["hist"]] for c in cases[:3]],
+        "rule": "histories of 2-8 queries (+ database snapshots) on one Machine: %d database-independent queries (deterministic, nondeterministic, failing, throwing early/late, residual constraints) and 17 templates over a dynamic f/1 (assertz/asserta/retract/retractall, enumeration with side effects, throw after side effects); each query consumed to k items (0, 1, 2, …, all, all+1) and dropped; every (template, database) pair is also run on a fresh Machine and through findall/3; non-trivial = more than two different queries and at least one partial consumption; distinct by the whole history" % len(PURE),
+        "samples": samples,
         "traces_validated_against_impl": agree,
         "disagreements_checked": total - agree,
-        "histories_sensitive_to_ball_clearing": stale_sensitive,
-        "findall_crosschecks_ok": f_ok,
+        "histories": len(hs),
+        "isolated_runs": len(iso_keys),
+        "findall_exact": f_exact,
+        "findall_count_only": f_count,
+        "histories_sensitive_to_ball_clearing": sens_ball,
+        "histories_sensitive_to_drop_discard": sens_drop,
+        "query_kinds": kinds,
+        "retried": retried,
         "findings": findings,
     }
